@@ -256,7 +256,16 @@ func (e *OpEngine) RunRandomDrawChecks() {
 			e.undecided("anchor", key, "missing", "", "constructor not found")
 			continue
 		}
-		for _, d := range [][]int{{}, {3}, {2, 3}, {2, 1, 2}} {
+		drawShapes := [][]int{{}, {3}, {2, 3}, {2, 1, 2}}
+		// look-ahead buffers / blocked sampling: element counts just beyond every size constant of the implementation
+		// (a cursor that wraps, a block that is not refilled) - none on a tree without such constants
+		for _, c := range e.SizeThresholds() {
+			drawShapes = append(drawShapes, []int{c + 1})
+			if c <= 512 {
+				drawShapes = append(drawShapes, []int{2, c + 1}, []int{2*c + 1})
+			}
+		}
+		for _, d := range drawShapes {
 			for rep := 0; rep < 1; rep++ {
 				d := d
 				label := fmt.Sprintf("%s %s", kind, dimsLabel(d))
